@@ -78,7 +78,9 @@ example : reconnect 1000 8000 5 = some ⟨[1000, 2000, 4000, 8000, 8000, 8000], 
 /-- **The source still has the shape the model mirrors** (regenerated on every run; `decide` fails when the Go code
 changes): hashed concatenation order, SHA-256, the backoff statements of the retry loop, the routing branch of
 `ErrChanSwitch.run` under the mutex, `Divert`/`Restore`, the bookkeeping order of `HandleServerShutdown`
-(all keys deleted before re-subscribing, first error returned after `keepSubscriptions`) and `connectAndAuthenticate` (map insertion before
+(a loop around `reconnect` that starts over while `reconnectDirty`; in `reconnect` all keys are deleted before
+re-subscribing and the first error is returned after `keepSubscriptions`), the reader's reaction to a shutdown notice
+(only close + mark dirty while a re-connect is in progress) and `connectAndAuthenticate` (map insertion before
 `authenticate`, divert before / restore deferred), the calls of `authenticate`, and `serverHandler`'s reaction. -/
 theorem C18_source_shape :
     Pool.Gen.C18.hashOrderCommitAccount = [0, 1] ∧ Pool.Gen.C18.hashOrderAuthChallenge = [0, 1] ∧
@@ -94,9 +96,13 @@ theorem C18_source_shape :
     Pool.Gen.C18.switchDivert = "s.Lock(); defer s.Unlock(); s.tempChan = tempChan; s.diverted = true" ∧
     Pool.Gen.C18.switchRestore = "s.Lock(); defer s.Unlock(); s.tempChan = nil; s.diverted = false" ∧
     Pool.Gen.C18.handleShutdownShape =
-      ["c.closeStream", "c.connectServerStream", "return err", "c.checkPendingBatch", "return err",
-       "range c.subscribedAccts", "delete", "range acctKeys", "c.StartAccountSubscription",
-       "c.keepSubscriptions", "return err", "return nil"] ∧
+      ["c.reconnecting++", "c.reconnect", "if c.reconnectDirty", "c.reconnectDirty = false", "continue",
+       "c.reconnecting--", "return err", "c.closeStream", "c.connectServerStream", "return err",
+       "c.checkPendingBatch", "return err", "range c.subscribedAccts", "delete", "range acctKeys",
+       "c.StartAccountSubscription", "c.keepSubscriptions", "return err", "return nil"] ∧
+    Pool.Gen.C18.shutdownNoticeReaction =
+      ["if c.reconnecting > 0", "c.reconnectDirty = true", "c.closeStream", "return", "c.HandleServerShutdown",
+       "return"] ∧
     Pool.Gen.C18.connectAndAuthShape =
       ["c.connectServerStream", "c.errChanSwitch.Divert", "defer c.errChanSwitch.Restore()",
        "c.subscribedAccts[acctPubKey] = sub", "sub.authenticate", "if errors.Is(err, ErrServerErrored)",
@@ -111,7 +117,7 @@ theorem C18_source_shape :
        "for err != nil && err != auctioneer.ErrClientShutdown", "return",
        "s.auctioneer.HandleServerShutdown( err, )"] := by decide
 
-/-- the source contains the three repairs: the driver's model variant (read from the regenerated shapes) is the one
+/-- the source contains the four repairs: the driver's model variant (read from the regenerated shapes) is the one
 the theorems below are about -/
 theorem C18_source_is_repaired : variantOfSource = Variant.fixed := by decide
 
@@ -176,20 +182,22 @@ theorem healthy_of_live {c : Client} (h : Live c) : Healthy c :=
 
 /-- The property's re-subscription clause over the model of variant `v`: from a healthy state with an open stream, a
 transport error or a shutdown notice while idle, any number `k` of refused reconnects, any map iteration order
-`pick`, and any transport errors (before the challenge, between challenge and subscribe, after the subscribe)
-hitting the handshakes of the re-subscription – and of the reconnects these cause in turn: afterwards the newest
+`pick`, and any faults of the model – transport errors (before the challenge, between challenge and subscribe, after
+the subscribe) and shutdown notices (before / after the challenge) – hitting the handshakes of the re-subscription and
+of the reconnects these cause in turn: afterwards the newest
 stream is alive and carries every previously subscribed account exactly once, acknowledged; the state is healthy
 again (so the statement iterates over any sequence of such faults). -/
 def C18_resubscribed_statement (v : Variant) : Prop :=
   ∀ (pick : List Nat → List Nat), (∀ l, List.Perm (pick l) l) →
   ∀ (c : Client), Healthy c → c.isOpen = true → ∀ (op : Op), (op = .errIdle ∨ op = .shutIdle) →
-  ∀ (k : Nat) (beh : List Beh), TransportOnly beh →
+  ∀ (k : Nat) (beh : List Beh), FaultsOnly beh →
     let c' := ((c.script k beh).step v pick op).1
     Healthy c' ∧ c'.cur.alive = true ∧ List.Perm c'.cur.subs c.accts ∧ c'.cur.success = c'.cur.subs ∧
       List.Perm c'.accts c.accts ∧ c.streams.length < c'.streams.length
 
-/-- **Re-subscribed exactly once – full strength, for the repaired code.**  No hypothesis about where the transport
-errors fall: each one that hits a handshake is absorbed by an inline reconnect that re-subscribes the whole map. -/
+/-- **Re-subscribed exactly once – full strength, for the repaired code.**  No hypothesis about where the faults
+fall: a transport error that hits a handshake is absorbed by an inline reconnect that re-subscribes the whole map; a
+shutdown notice that hits a re-subscription makes the running reconnect start over with the whole map kept. -/
 theorem C18_resubscribed_once : C18_resubscribed_statement Variant.fixed := by
   intro pick hpick c hH hopen op hop k beh ht c'
   obtain ⟨hnd, hch, hst⟩ := hH
@@ -204,21 +212,25 @@ theorem C18_resubscribed_once : C18_resubscribed_statement Variant.fixed := by
     fun c2 hl hp hs => ⟨healthy_of_live hl, hl.alive, hl.perm.trans hp, hl.succ, hp, hs⟩
   rcases hop with rfl | rfl
   · -- transport error while idle: reader → switch (not diverted) → main handler → HandleServerShutdown(err)
-    obtain ⟨f1, f2, _, _, f5, f6, _⟩ := setCur_fields (c.script k beh) (fun s => { s with alive := false })
+    obtain ⟨f1, f2, _, _, f5, f6, _, _, _, f10⟩ :=
+      setCur_fields (c.script k beh) (fun s => { s with alive := false })
     let c1 : Client := { (c.script k beh).failStream with
       mainErrs := (c.script k beh).failStream.mainErrs ++ [ErrClass.serverErrored] }
-    obtain ⟨c2, h, hl, hp, _, _, hs⟩ := hss_of_P pick hpick beh.length hP c1
+    obtain ⟨c2, h, hl, hp, _, _, hs⟩ := hss_of_P pick hpick beh.length hP beh.length c1
       (by show (c.script k beh).failStream.accts.Nodup; rw [Client.failStream, f1]; exact hnd)
       (by show (c.script k beh).failStream.chaos = false; rw [Client.failStream, f5]; exact hch)
-      (by show TransportOnly (c.script k beh).failStream.beh; rw [Client.failStream, f2]; exact ht)
+      (by show (c.script k beh).failStream.failOpen = 0; rw [Client.failStream, f10]; rfl)
+      (by show FaultsOnly (c.script k beh).failStream.beh; rw [Client.failStream, f2]; exact ht)
+      (by show (c.script k beh).failStream.beh.length ≤ _; rw [Client.failStream, f2]; exact le_refl _)
       (by show (c.script k beh).failStream.beh.length ≤ _; rw [Client.failStream, f2]; exact le_refl _)
     have e : c' = { c2 with handlerRes := c2.handlerRes ++ [ErrClass.none_] } := by
-      have hb : (c.script k beh).beh.length = beh.length := rfl
-      simp only [c', Client.step, hopen', halive', Bool.and_self, if_true, Client.mainHandler, hb]
+      have hbl : (c.script k beh).beh = beh := rfl
+      have hfo : (c.script k beh).failOpen = 0 := rfl
+      simp only [c', Client.step, hopen', halive', Bool.and_self, if_true, Client.mainHandler, hbl, hfo, Nat.add_zero]
       simp only [hsF] at h
       exact handlerLoop_ok _ _ _ c1 c2 h
     have hl' : Live { c2 with handlerRes := c2.handlerRes ++ [ErrClass.none_] } :=
-      ⟨hl.isOpen, hl.alive, hl.perm, hl.succ, hl.nodup, hl.chaos⟩
+      ⟨hl.isOpen, hl.alive, hl.perm, hl.succ, hl.nodup, hl.chaos, hl.fo⟩
     rw [e]
     have hp1 : List.Perm c2.accts c.accts := by
       refine hp.trans ?_
@@ -231,10 +243,11 @@ theorem C18_resubscribed_once : C18_resubscribed_statement Variant.fixed := by
       omega
     exact fin _ hl' hp1 hs1
   · -- shutdown notice while idle: the reader goroutine runs HandleServerShutdown(nil) itself
-    obtain ⟨c2, h, hl, hp, _, _, hs⟩ := hss_of_P pick hpick beh.length hP (c.script k beh) hnd hch ht (le_refl _)
+    obtain ⟨c2, h, hl, hp, _, _, hs⟩ := hss_of_P pick hpick beh.length hP beh.length (c.script k beh) hnd hch rfl ht (le_refl _) (le_refl _)
     have e : c' = c2 := by
-      have hb : (c.script k beh).beh.length = beh.length := rfl
-      simp only [c', Client.step, hopen', halive', Bool.and_self, if_true, Client.readerShutdown, hb]
+      have hbl : (c.script k beh).beh = beh := rfl
+      have hfo : (c.script k beh).failOpen = 0 := rfl
+      simp only [c', Client.step, hopen', halive', Bool.and_self, if_true, Client.readerShutdown, hbl, hfo, Nat.add_zero]
       simp only [hsF] at h
       rw [h]
     rw [e]
@@ -249,55 +262,74 @@ theorem witness3_healthy : Healthy witness3 :=
 
 -- non-vacuity: shutdown notice, 3 refused reconnects, the 2nd re-subscription fails before its challenge, the first
 -- handshake of the nested reconnect fails between challenge and subscribe; map iterated in reverse
-example : TransportOnly [.ok, .errBC, .errMid] ∧
+example : FaultsOnly [.ok, .errBC, .errMid] ∧
     (((witness3.script 3 [.ok, .errBC, .errMid]).step Variant.fixed List.reverse .shutIdle).1.cur.subs = [1, 2, 0]) ∧
     ((witness3.script 3 [.ok, .errBC, .errMid]).step Variant.fixed List.reverse .shutIdle).1.attempts = 7 ∧
     ((witness3.script 3 [.ok, .errBC, .errMid]).step Variant.fixed List.reverse .shutIdle).1.streams.length = 4 := by
   refine ⟨by intro b hb; simp at hb; rcases hb with rfl | rfl | rfl <;> simp, by decide +kernel, by decide +kernel, by decide +kernel⟩
 
-/-- **Subscribing is resilient too (repaired code).**  A first or further `StartAccountSubscription`, with any
-transport errors hitting its own handshake or the re-subscriptions of the reconnects they cause, returns nil, leaves
-a healthy state and adds the account to the map exactly once. -/
+/-- **Subscribing is resilient too (repaired code).**  A first or further `StartAccountSubscription`, with any faults
+of the model hitting its own handshake or the re-subscriptions of the reconnects they cause, leaves a healthy state
+with the account in the map exactly once and subscribed on the newest stream.  It returns nil, or – when its own
+handshake was hit by a shutdown notice (model: `HsRes.errShutdown`) – an error although the reconnect run by the
+stream's reader subscribes the account as well (as the Go code does). -/
 theorem C18_subscribe_resilient (pick : List Nat → List Nat) (hpick : ∀ l, List.Perm (pick l) l)
-    (c : Client) (hH : Healthy c) (a k : Nat) (beh : List Beh) (ht : TransportOnly beh) :
+    (c : Client) (hH : Healthy c) (a k : Nat) (beh : List Beh) (ht : FaultsOnly beh) :
     let r := (c.script k beh).step Variant.fixed pick (.sub a)
-    r.2 = .ok ∧ Healthy r.1 ∧ List.Perm r.1.accts (addAcct c.accts a) := by
+    (r.2 = .ok ∨ r.2 = .err) ∧
+      Healthy r.1 ∧ List.Perm r.1.accts (addAcct c.accts a) := by
   obtain ⟨hnd, hch, hst⟩ := hH
   intro r
   have hP := PHs_all pick hpick beh.length
-  have hb : (c.script k beh).beh.length = beh.length := rfl
+  have hbl : (c.script k beh).beh = beh := rfl
+  have hfo : (c.script k beh).failOpen = 0 := rfl
   by_cases ha : a ∈ c.accts
   · have : r = (c.script k beh, .ok) := by
       have ha' : a ∈ (c.script k beh).accts := ha
-      simp only [r, Client.step, hb]
+      simp only [r, Client.step, hbl, hfo, Nat.add_zero]
       cases hbl : beh.length <;> simp [hsLevel, Client.connectAndAuth, ha']
     rw [this]
-    exact ⟨rfl, ⟨hnd, hch, hst⟩, by simp [Client.script, addAcct, ha]⟩
+    exact ⟨Or.inl rfl, ⟨hnd, hch, hst⟩, by simp [Client.script, addAcct, ha]⟩
   · -- the live state the handshake starts from (after the first connect, if there is no stream yet)
     have key : ∀ c0 : Client, Live c0 → c0.accts = c.accts → c0.beh = beh →
         hsLevel Variant.fixed pick beh.length (c.script k beh) a = hsLevel Variant.fixed pick beh.length c0 a →
-        r.2 = .ok ∧ Healthy r.1 ∧ List.Perm r.1.accts (addAcct c.accts a) := by
+        (r.2 = .ok ∨ r.2 = .err) ∧
+          Healthy r.1 ∧ List.Perm r.1.accts (addAcct c.accts a) := by
       intro c0 hl h1 h2 heq
-      obtain ⟨c', h, p⟩ := hP c0 a hl (by rw [h1]; exact ha) (by rw [h2]; exact ht) (by rw [h2])
-      have : r = (c', .ok) := by
-        simp only [r, Client.step, hb, heq]
-        simp only [hsF] at h
-        rw [h]
-      rw [this]
-      refine ⟨rfl, healthy_of_live p.live, ?_⟩
-      have := p.perm
-      rw [h1] at this
-      simpa [addAcct, ha] using this
+      obtain ⟨c', res, h, o⟩ := hP c0 a hl (by rw [h1]; exact ha) (by rw [h2]; exact ht) (by rw [h2])
+      simp only [hsF] at h
+      rcases o with ⟨rfl, p⟩ | ⟨rfl, ab⟩
+      · have : r = (c', .ok) := by
+          simp only [r, Client.step, hbl, hfo, Nat.add_zero, heq]
+          rw [h]
+        rw [this]
+        refine ⟨Or.inl rfl, healthy_of_live p.live, ?_⟩
+        have := p.perm
+        rw [h1] at this
+        simpa [addAcct, ha] using this
+      · -- the notice hit this very handshake: the stream's reader runs HandleServerShutdown(nil)
+        obtain ⟨c2, h2', hl2, hp2, _, _, _⟩ := hss_of_P pick hpick beh.length hP beh.length c' ab.nodup ab.chaos ab.fo
+          ab.tr (by have := ab.len; rw [h2] at this; omega) (by have := ab.len; rw [h2] at this; omega)
+        simp only [hsF] at h2'
+        have : r = (c2, .err) := by
+          simp only [r, Client.step, hbl, hfo, Nat.add_zero, heq]
+          rw [h]
+          simp only [Client.readerShutdown, h2']
+        rw [this]
+        refine ⟨Or.inr rfl, healthy_of_live hl2, ?_⟩
+        · have := hp2.trans ab.perm
+          rw [h1] at this
+          simpa [addAcct, ha] using this
     rcases hst with ⟨hcl, hemp⟩ | ⟨hop, halive, hperm, hsucc⟩
     · have hcl' : (c.script k beh).isOpen = false := hcl
       have ha' : a ∉ (c.script k beh).accts := ha
       refine key (c.script k beh).connectStream ?_ rfl rfl ?_
-      · refine ⟨rfl, rfl, ?_, rfl, ?_, hch⟩
+      · refine ⟨rfl, rfl, ?_, rfl, ?_, hch, rfl⟩
         · show List.Perm [] c.accts; rw [hemp]
         · show c.accts.Nodup; exact hnd
       · cases beh.length <;>
-          simp [hsLevel, Client.connectAndAuth, ha', hcl', Client.connectStream]
-    · exact key (c.script k beh) ⟨hop, halive, hperm, hsucc, hnd, hch⟩ rfl rfl rfl
+          simp [hsLevel, Client.connectAndAuth, ha', hcl', Client.connectStream, hfo]
+    · exact key (c.script k beh) ⟨hop, halive, hperm, hsucc, hnd, hch, rfl⟩ rfl rfl rfl
 
 /-- **The clause is false for the code before the repairs** (finding `resubscribe-abort-drops-accounts`, now fixed):
 three accounts, shutdown notice, the second re-subscription is hit by a transport error before the challenge – the
@@ -318,10 +350,20 @@ an error, which makes `HandleServerShutdown` fail without a transport error):
 without the inline reconnect a transport error in a direct handshake leaves a dead stream; without keeping the
 accounts a failed re-subscription loses account 2 for good; without the handler retry the client stays with one
 account subscribed. -/
+-- non-vacuity with shutdown notices inside the re-subscription: the first re-subscription gets a notice instead of
+-- its final answer, the reconnect starts over, whose second handshake gets one instead of the challenge
+example : FaultsOnly [.shutAC, .ok, .shutBC] ∧
+    (((witness3.script 0 [.shutAC, .ok, .shutBC]).step Variant.fixed id .errIdle).1.cur.subs = [0, 1, 2]) ∧
+    ((witness3.script 0 [.shutAC, .ok, .shutBC]).step Variant.fixed id .errIdle).1.streams.length = 4 ∧
+    ((witness3.script 0 [.shutAC, .ok, .shutBC]).step Variant.fixed id .errIdle).1.handlerRes = [.none_] := by
+  refine ⟨by intro b hb; simp at hb; rcases hb with rfl | rfl | rfl <;> simp, by decide +kernel, by decide +kernel,
+    by decide +kernel⟩
+
 theorem C18_each_repair_needed :
-    ((witness3.script 0 [.errBC]).step ⟨true, false, true⟩ id (.sub 3)).1.cur.alive = false ∧
-    ((witness3.script 0 [.ok, .reject]).step ⟨false, true, true⟩ id .errIdle).1.accts = [0, 1] ∧
-    ((witness3.script 0 [.ok, .reject]).step ⟨true, true, false⟩ id .errIdle).1.cur.success = [0] ∧
-    ((witness3.script 0 [.ok, .reject]).step Variant.fixed id .errIdle).1.cur.success = [0, 1, 2] := by decide +kernel
+    ((witness3.script 0 [.errBC]).step ⟨true, false, true, true⟩ id (.sub 3)).1.cur.alive = false ∧
+    ((witness3.script 0 [.ok, .reject]).step ⟨false, true, true, true⟩ id .errIdle).1.accts = [0, 1] ∧
+    ((witness3.script 0 [.ok, .reject]).step ⟨true, true, false, true⟩ id .errIdle).1.cur.success = [0] ∧
+    ((witness3.script 0 [.ok, .reject]).step Variant.fixed id .errIdle).1.cur.success = [0, 1, 2] ∧
+    ((witness3.script 0 [.ok, .shutBC]).step ⟨true, true, true, false⟩ id .errIdle).1.chaos = true := by decide +kernel
 
 end Pool.C18
